@@ -272,6 +272,26 @@ def self_field_stores(body):
         if root[0] == 'param' and root[2] == 1 and ch:
             val = body.rvalue_expr(rv) if rv is not None else body.call_expr(body.call_at[bb])
             out.append((bb, ch, val, st))
+    # library calls that overwrite the place they borrow: opt.take() stores None, mem::replace(&mut p, v) stores v,
+    # mem::take(&mut p) stores Default::default()
+    for cs in body.calls:
+        m = None
+        if re.search(r'option::Option::<.*>::take$', cs.name):
+            m = ('aggr', 'adt', 'std::option::Option::None', ())
+        elif re.search(r'mem::replace$', cs.name) and len(cs.args) == 2:
+            m = body.op_expr(cs.args[1])
+        elif re.search(r'mem::take$', cs.name):
+            m = ('call', 'std::default::Default::default', (), cs.site)
+        elif re.search(r'option::Option::<.*>::(insert|replace)$', cs.name) and len(cs.args) == 2:
+            m = ('aggr', 'adt', 'std::option::Option::Some', (('0', body.op_expr(cs.args[1])),))
+        if m is None or not cs.args:
+            continue
+        tgt = body.op_expr(cs.args[0])
+        if tgt[0] != 'ref':
+            continue
+        root, ch = mir.field_chain(tgt[1])
+        if root[0] == 'param' and root[2] == 1 and ch:
+            out.append((cs.bb, ch, m, cs.term))
     return out
 
 
@@ -557,6 +577,44 @@ def builder_sequence(body, local):
         if not body.dominates(x.bb, y.bb) and body.loop_depth(x.bb) == body.loop_depth(y.bb) == 0:
             raise Unrecognised('builder', 'mutations of _%d in %s are not totally ordered' % (local, body.path))
     return [(c.bb, mir.method_name(c.name), [mir.canon(body.op_expr(a)) for a in c.args[1:]], body.loop_depth(c.bb), c) for c in items]
+
+
+def byte_pieces(body):
+    """ordered pieces of the byte vector a `-> Vec<u8>` body returns, as (method, [canonical args], loop depth):
+    either a Vec built in place (with_capacity/new, then push/extend.. — see builder_sequence) and returned, or the
+    concatenation of a literal array of slices (`[a, b].concat()`). Returns (pieces, returns_the_buffer) or None."""
+    ret = peel(body.ret_expr(), calls=False)
+    if ret[0] == 'call' and mir.method_name(ret[1]) == 'concat' and len(ret[2]) == 1:
+        arr = peel(ret[2][0])
+        if arr[0] == 'aggr' and arr[1] == 'array':
+            return [('extend', [mir.canon(v)], 0) for _, v in arr[3]], True
+        return None
+    vec = [l for l in range(len(body.locals)) if body.local_ty(l) == 'std::vec::Vec<u8>' and
+           any(d[0] == 'call' and mir.method_name(d[2].name) in ('with_capacity', 'new') for d in body.defs().get(l, []))]
+    if len(vec) != 1:
+        return None
+    seq = [(s2[1], s2[2], s2[3]) for s2 in builder_sequence(body, vec[0])]
+    return seq, mir.canon(body.ret_expr()) == mir.canon(body.local_expr(vec[0]))
+
+
+def closures_created(prog, body):
+    """bodies of the closures created in `body` (after helper inlining the creating statement may come from a
+    helper, so the closure's own path need not be nested under body.path)"""
+    out = []
+    for i in body.live:
+        for st in body.blocks[i]['stmts']:
+            if st['k'] == 'assign' and st['rv']['k'] == 'aggr' and st['rv'].get('akind') == 'closure':
+                cb = prog.bodies.get(st['rv'].get('closure'))
+                if cb is not None and cb not in out:
+                    out.append(cb)
+    return out
+
+
+def only_closure(prog, body):
+    cl = closures_created(prog, body)
+    if len(cl) != 1:
+        raise mir.Unrecognised('anchor', 'expected exactly one closure created in %s, found %d' % (body.path, len(cl)))
+    return cl[0]
 
 
 def rpo(body):
